@@ -141,6 +141,9 @@ BOUNDARY_LINES = [
     "PRINT " + "(" * 70 + "1" + ")" * 70, "PRINT " + "(" * 5000, "IF 1 THEN " * 80 + "PRINT 1", "PRINT " + "-" * 50 + "1",
     "PRINT " + "NOT " * 3 + "1", "A(" * 80 + "1" + ")" * 80 + " = 1", "PRINT F(" * 40 + "1" + ")" * 40,
     "PRINT " + "9" * 400, "PRINT ." + "0" * 400 + "1", "REM", "DATA", "?", ":", "::::", "LET", "LET X", "DIM", "DIM X",
+    # every write path against a variable that ALREADY holds a value of the other kind / the right kind
+    "X$ = \"s\"", "A$ = \"hello\" : FOR A$ = 1 TO 3 : NEXT A$", "FOR X$ = 1 TO 2", "NEXT X$", "FOR A$ = 1 TO 2 : PRINT A$ : NEXT A$",
+    "X = 1 : FOR X = \"a\" TO 2", "READ X$", "INPUT X$", "X$ = X$ + 1", "FOR I$ = 1 TO 2",
     "FOR", "FOR I", "FOR I=1", "FOR I=1 TO", "NEXT", "GOTO", "GOSUB", "DEF", "DEF F", "DEF F(", "DEF F(X", "DEF F(X)",
     "READ", "INPUT", "PRINT ,;,;", "PRINT 1,2;3", "X = ", "X(1", "X(1)", "X(1) =", "= 1", "1 = 1", "PRINT A$(1)", "A$(1) = 1",
 ]
@@ -295,6 +298,11 @@ def run_c16(chk):
         ["10 X(1,2,3,4) = 1"], ["10 X(1,2,3) = 1 : PRINT X(10,10,10)"], ["10 A$ = 5"], ["10 A = \"x\""], ["10 A$(1) = 5"],
         ["10 DEF F(X$) = 1", "20 PRINT F(1)"], ["10 DEF F(X) = 1", "20 PRINT F(\"a\")"], ["10 READ A", "20 DATA x"],
         ["10 READ A$", "20 DATA 5"], ["10 INPUT A"], ["10 FOR A$ = 1 TO 2"], ["10 GOSUB 20", "20 GOSUB 10"],
+        # a `$` variable that already holds a string, used as a loop counter (assigned by LET, INPUT, READ)
+        ["10 A$ = \"hello\"", "20 FOR A$ = 1 TO 3", "30 PRINT A$", "40 NEXT A$", "50 PRINT A$"],
+        ["10 INPUT N$", "20 FOR N$ = 1 TO 2", "30 NEXT N$", "40 PRINT N$"],
+        ["10 READ B$", "20 DATA x", "30 FOR B$ = 1 TO 2 : NEXT B$"],
+        ["10 FOR I = 1 TO 2", "20 I$ = \"a\"", "30 NEXT I$"],
         ["10 FOR I=1 TO 40", "20 GOSUB 100", "30 NEXT I", "40 END", "100 RETURN"],
     ]
     idx = 0
